@@ -221,8 +221,11 @@ def main():
             return PARSING.run(doc_, scores_, cats, roots, G.bin, G.un, processes=processes, max_chunk_size=max_chunk_size, **kw)
         try:
             base = run(doc, scores)
+            for toks_, sc_ in zip(doc, scores):
+                run([toks_], [sc_])
         except Exception as e:       # noqa
-            fail('C11', 'run raises on a well-formed batch', error=repr(e), **ctx0)
+            for pr in ('C02', 'C11', 'C12', 'C09', 'C10'):
+                fail(pr, 'depccg.parsing.run raises on a well-formed batch', error=repr(e)[:300], **ctx0)
             continue
         if len(base) != len(doc):
             fail('C11', 'number of result lists differs from the number of sentences', got=len(base), expected=len(doc), **ctx0)
